@@ -84,6 +84,29 @@ def run_one(cfg, seed, c, hole):
                 calls=[int(v) for v in st.get_history("calls")])
 
 
+def band_sampler(seed, N, sig, c=0.0):
+    """A seeded run engineered to stop at beta_last = 1 - 2^-14 (inside the termination tolerance, not equal to 1).
+    Returns (sampler, ess_ratio) or None when the ESS bracket of the warm-up pool is unusable."""
+    from tempest import Sampler
+
+    def go(c_, ratio):
+        s = Sampler(pt, lambda x: -0.5 * float(np.sum(x ** 2)) / sig ** 2 + c_, n_dim=2, n_particles=N, ess_ratio=ratio,
+                    random_state=seed, clustering=False)
+        s.run(n_total=N // 2, progress=False)
+        return s
+    pilot = go(0.0, 2.0)
+    l2 = np.concatenate(pilot.state._history["logl"])[:2 * N]
+
+    def ess_of(b):
+        w = np.exp(b * l2 - np.max(b * l2))
+        return float(w.sum() ** 2 / np.sum(w ** 2))
+    e1, e2 = ess_of(1.0), ess_of(1.0 - 2.0 ** -14)
+    if not (N < e1 < e2 <= 2 * N):
+        return None
+    ratio = 0.5 * (e1 + e2) / N
+    return go(c, ratio), ratio
+
+
 def band_probe(run, tier, rng):
     """Runs engineered to stop at beta_last = 1 - 2^-14 (inside the termination tolerance, not equal to 1): the ESS target is
     put between ESS(1) and ESS(1 - 2^-14) of the warm-up pool, so the upper-limit search ends one halving short of 1.
